@@ -300,6 +300,13 @@ fn tags(p: &Pat) -> Vec<&'static str> {
     fn seq(r: &Re) -> Vec<&Re> { match r { Re::Cat(v) => v.iter().flat_map(|x| seq(x)).collect(), x => vec![x] } }
     let items = seq(r);
     if matches!(p, Pat::Regexp(..)) && matches!(items.last(), Some(Re::Rep(x, ..)) if is_dot(x)) { t.push("trailing-dot-repetition"); }
+    // a `wide` regexp with a jump over the chaining threshold between two pieces: it is split into a
+    // chain, and for a chain the gap is only a distance (known finding: the gap is not required to
+    // consist of wide characters)
+    if matches!(p, Pat::Regexp(_, m) if m.wide) && items.len() >= 3
+        && items[1..items.len() - 1].iter().any(|x| matches!(x, Re::Rep(y, mn, mx, _) if matches!(**y, Re::Cls(Cls::Any)) && mx.map_or(true, |m| m - mn > 200))) {
+        t.push("wide-regexp-split-at-large-gap");
+    }
     fn any_unsound_class(r: &Re, nc: bool) -> bool {
         match r {
             Re::Cls(c @ Cls::Ranges(..)) => matches!(class_to_masked_byte(&cls_set(c, nc)), Some((_, _, false))),
@@ -814,8 +821,9 @@ fn corpus() -> Vec<(Pat, Vec<u8>, Option<usize>)> {
     let rm = |f: &dyn Fn(&mut RMods)| { let mut m = RMods::default(); f(&mut m); m };
     let tm = |f: &dyn Fn(&mut TMods)| { let mut m = TMods::default(); f(&mut m); m };
     vec![
-        // masked literal extracted from a regexp, with fullword (finding: verify_full_word is
-        // given the pattern-length slice and absolute offsets): missed, wrongly reported, panic
+        // regression cases of repaired defects (known_findings.jsonl, kind=fixed).
+        // masked literal extracted from a regexp, with fullword (verify_full_word was given the
+        // pattern-length slice and absolute offsets): missed, wrongly reported, panic
         (Pat::Regexp(Re::Cat(vec![lit(b"ab"), any(), lit(b"de")]), rm(&|m| { m.dotall = true; m.fullword = true; })), b" abcde".to_vec(), None),
         (Pat::Regexp(Re::Cat(vec![lit(b"ab"), any(), lit(b"de")]), rm(&|m| { m.dotall = true; m.fullword = true; })), b"abcdez".to_vec(), None),
         (Pat::Regexp(Re::Cat(vec![lit(b"ab"), any(), lit(b"de")]), rm(&|m| { m.dotall = true; m.fullword = true; })), b"      abcde".to_vec(), None),
@@ -845,6 +853,8 @@ fn corpus() -> Vec<(Pat, Vec<u8>, Option<usize>)> {
         // one literal byte, a jump of 12, a masked byte, a variable jump: the occurrence is missed
         (Pat::Hex(Re::Cat(vec![lit(&[0x50]), Re::Rep(Box::new(any()), 12, Some(12), false), Re::Cls(Cls::Mask(0x70, 0xF0)), Re::Rep(Box::new(any()), 0, Some(50), false), lit(&[0x5F])])),
          b"Pxxxxxxxxxxxxzyy_".to_vec(), None),
+        // remaining known finding: a wide regexp split at a large gap accepts a gap that is not wide
+        (Pat::Regexp(Re::Cat(vec![lit(b"ab"), Re::Rep(Box::new(any()), 0, None, true), lit(b"cd")]), rm(&|m| { m.dotall = true; m.wide = true; })), b"a\0b\0xc\0d\0".to_vec(), None),
         // xor + fullword (differences.md)
         (Pat::Text(b"mississippi".to_vec(), tm(&|m| { m.xor = Some((1, 1)); m.xor_explicit = true; m.fullword = true; })), b"{lhrrhrrhqqh} !lhrrhrrhqqh!".to_vec(), None),
     ]
